@@ -23,7 +23,7 @@ from . import cluster_units as CU
 from .common import (bound_args, borrow, call_name, enclosing_loops, iteration_segments, path_must,
                      short, stmt_contains)
 
-FLOORS = {'C04.T10': 1, 'C04.T1': 2, 'C04.T2': 7, 'C04.T3': 3, 'C04.T4': 1, 'C04.T6': 1, 'C04.T7': 1, 'C04.T8': 1}
+FLOORS = {'C04.T12': 1, 'C04.T10': 1, 'C04.T1': 2, 'C04.T2': 7, 'C04.T3': 3, 'C04.T4': 1, 'C04.T6': 1, 'C04.T7': 1, 'C04.T8': 1}
 
 QUEUE = 'Scheduler.observation_queue'
 ORDER = ['UNSCHEDULED', 'SCHEDULED', 'RUNNING', 'FINISHED']
@@ -48,6 +48,8 @@ def check(repo, res, tier):
     t4(repo, res, canon)
     t6(repo, res, canon, pc)
     t10(repo, res, logic)
+    t12(repo, res, canon, logic)
+    t2b(repo, res, canon, logic)
     from . import c11, c19
     borrow(repo, res, tier, c19, {'C19.K', 'C19.F'}, 'C04.T4')
     borrow(repo, res, tier, c11, {'C11.U3'}, 'C04.T5')
@@ -124,6 +126,132 @@ def t1(repo, res, canon, pc, logic):
                     ok, why = False, 'an observation is queued without testing that it is not already queued'
     (res.ok if ok and n else res.bad)('C04.T1', s, None, 'queue.append(obs) and spawn allocate_tasks(obs) occur together, for a new obs',
                                       'ok' if ok and n else why or 'the scheduler never starts allocation')
+
+
+def t2b(repo, res, canon, logic):
+    """the life cycle can complete: the path on which the cluster takes a finished task's machine
+    back also writes FINISHED (the scheduler drops only FINISHED tasks from the plan)"""
+    c = repo.func('Cluster.allocate_task_to_cluster')
+    cfr = Frame(c)
+    tparam = c.params[1]
+    n = 0
+    ok = True
+    for p in cached_paths(c):
+        if p.exit not in ('return', 'fall'):
+            continue
+        must = path_must(logic, p)
+        if not any(l.pol and l.atom.endswith('.triggered)') for l in must):
+            continue
+        n += 1
+        wrote = any(e.kind == 'stmt' and isinstance(e.node, ast.Assign) and isinstance(e.node.targets[0], ast.Attribute)
+                    and e.node.targets[0].attr == 'task_status' and canon.c(e.node.targets[0].value, cfr) == tparam
+                    and canon.c(e.node.value, cfr) == 'TaskStatus.FINISHED' for e in p.events)
+        if not wrote:
+            ok = False
+    (res.ok if ok and n else res.bad)('C04.T2', c, None, 'the completion path marks the task FINISHED',
+                                      '%d completion path(s)' % n if ok and n else
+                                      'a task whose work has ended and whose machine was taken back is not marked FINISHED: it '
+                                      'never leaves the plan and the workflow never closes')
+
+
+def t12(repo, res, canon, logic):
+    """The allocation loop of one workflow: every round asks for a schedule, submits a non-empty
+    one, carries what is left into the next round, and is left only when the workflow is reported
+    finished.  Each clause is necessary for "every task of the workflow executes exactly once"."""
+    res.rule('C04.T12', 'allocate_tasks: each round calls _generate_current_schedule with the carried schedule, submits a '
+                        'non-empty schedule through _process_current_schedule (result carried on), and leaves the loop only '
+                        'when the generated verdict says finished')
+    a = repo.func('Scheduler.allocate_tasks')
+    afr = Frame(a)
+    gens = [n for n in walk_no_nested(a.node) if isinstance(n, ast.Assign) and isinstance(n.value, ast.Call)
+            and call_name(n.value) == '_generate_current_schedule']
+    shape = None
+    if len(gens) == 1 and isinstance(gens[0].targets[0], ast.Tuple) and len(gens[0].targets[0].elts) == 4 and all(
+            isinstance(x, ast.Name) for x in gens[0].targets[0].elts):
+        shape = 'tuple'
+    elif len(gens) == 1 and isinstance(gens[0].targets[0], ast.Name):
+        shape = 'record'
+    if shape is None:
+        res.bad('C04.T12', a, gens[0] if gens else None, 'no single `plan, schedule, pool, finished = _generate_current_schedule(..)`',
+                'the allocation loop does not obtain (plan, schedule, pool, finished) from _generate_current_schedule in one place')
+        return
+    g = gens[0]
+    if shape == 'tuple':
+        S, F = g.targets[0].elts[1].id, g.targets[0].elts[3].id
+        FINS = {F}
+    else:
+        # step = _generate_current_schedule(..); schedule = step[1]; finished = step[3] (or tested directly)
+        R = g.targets[0].id
+
+        def comp(i):
+            return [n.targets[0].id for n in walk_no_nested(a.node) if isinstance(n, ast.Assign) and len(n.targets) == 1
+                    and isinstance(n.targets[0], ast.Name) and isinstance(n.value, ast.Subscript) and isinstance(
+                        n.value.value, ast.Name) and n.value.value.id == R and isinstance(n.value.slice, ast.Constant)
+                    and n.value.slice.value == i]
+        ss = comp(1)
+        if len(ss) != 1:
+            res.bad('C04.T12', a, g, 'the generated schedule is not taken from the result',
+                    'component 1 (the schedule) of what _generate_current_schedule returns is not carried on')
+            return
+        S = ss[0]
+        F = '%s[3]' % R
+        FINS = {F} | set(comp(3))
+    loops = [l for l in enclosing_loops(a, g) if isinstance(l, ast.While)]
+    if not loops:
+        res.bad('C04.T12', a, g, 'schedule generated outside a loop', 'the schedule is generated once, not every timestep')
+        return
+    lp = loops[-1]
+    ga = bound_args(repo, 'Scheduler._generate_current_schedule', g.value, afr)
+    ok = True
+    why = ''
+    if canon.c(ga.get('schedule'), afr) != S:
+        ok, why = False, ('the schedule handed to _generate_current_schedule is %s, not the one carried over from the last '
+                          'round (%s): proposals that could not be submitted are forgotten' % (canon.c(ga.get('schedule'), afr), S))
+    t = lp.test
+    tn, tp = t, True
+    while isinstance(tn, ast.UnaryOp) and isinstance(tn.op, ast.Not):
+        tn, tp = tn.operand, not tp
+    if not (is_const_true(t) or (canon.c(tn, afr) in FINS and tp is False)):
+        ok, why = False, 'the allocation loop runs while `%s`, not until the workflow is reported finished' % short(ast.unparse(t))
+    n_leave = n_sub = 0
+    for seg, how in iteration_segments(a, lp):
+        if how == 'raise':
+            continue
+        class _P:
+            events = seg
+        must = path_must(logic, _P)
+        fin = any(Lit('truthy(%s)' % x, True) in must for x in FINS)
+        if not any(e.kind == 'stmt' and any(x is g.value for x in ast.walk(e.node)) for e in seg):
+            ok, why = False, 'a round of the allocation loop does not ask the algorithm for a schedule'
+            continue
+        if how in ('break', 'return'):
+            n_leave += 1
+            if not fin:
+                ok, why = False, ('the allocation loop is left on a path that has not established that the workflow is finished: '
+                                  'the remaining tasks are never allocated')
+            continue
+        calls = [x for e in seg if e.kind == 'stmt' for x in ast.walk(e.node)
+                 if isinstance(x, ast.Call) and call_name(x) == '_process_current_schedule']
+        empty = Lit('truthy(%s)' % S, False) in must or Lit('empty(%s)' % S, True) in must
+        if fin or empty:
+            continue
+        if not calls:
+            ok, why = False, ('a round with a non-empty schedule does not submit it (_process_current_schedule is not called): '
+                              'no task is ever started')
+            continue
+        n_sub += 1
+        pa = bound_args(repo, 'Scheduler._process_current_schedule', calls[0], afr)
+        stored = [e.node for e in seg if e.kind == 'stmt' and isinstance(e.node, ast.Assign) and e.node.value is calls[0]]
+        if not (pa.get('schedule') is not None and isinstance(pa['schedule'], ast.Name) and pa['schedule'].id == S):
+            ok, why = False, 'the schedule submitted is not the one just generated'
+        elif not stored or not (isinstance(stored[0].targets[0], ast.Tuple) and stored[0].targets[0].elts and isinstance(
+                stored[0].targets[0].elts[0], ast.Name) and stored[0].targets[0].elts[0].id == S):
+            ok, why = False, ('what _process_current_schedule hands back is not carried into the next round: submitted '
+                              'proposals are offered again')
+    if ok and not n_sub:
+        ok, why = False, 'no round submits a schedule'
+    (res.ok if ok else res.bad)('C04.T12', a, lp, 'allocation rounds: generate -> submit -> carry over; leave only when finished',
+                                '%d submitting round path(s), %d leaving path(s)' % (n_sub, n_leave) if ok else why)
 
 
 def status_writes(repo):
@@ -273,7 +401,16 @@ def t2(repo, res, canon, pc, logic):
                 if removed and not spawned:
                     okk, why = False, ('a proposal is removed from the schedule (`%s`) on a path that does not submit it: '
                                        'the task is never executed' % short(ast.unparse(removed[0].node)))
-            else:
+                if spawned and how == 'back' and not [ef for ef in removed if ef.arg in (T, None) or ef.kind == 'clear']:
+                    okk, why = False, ('a proposal that was submitted stays in the schedule handed back: the schedule never '
+                                       'becomes empty, so the workflow is never closed (and the stale proposal is offered again '
+                                       'when its machine is free: RuntimeError)')
+            elif spawned and how == 'back':
+                kept_sub = [ef for ef in effs if ef.loc == R and ef.kind == 'store' and ef.arg == T]
+                if kept_sub:
+                    okk, why = False, ('a proposal that was submitted is put into the schedule handed back (%s): the schedule '
+                                       'never becomes empty and the workflow is never closed' % R)
+            if R != sched:
                 kept = [ef for ef in effs if ef.loc == R and ef.kind == 'store' and ef.arg == T]
                 if not spawned and how == 'back' and not kept:
                     okk, why = False, ('the schedule handed back (%s) does not receive a proposal that was not submitted this '
